@@ -132,6 +132,12 @@ module Nat =
     negb (even n0)
  end
 
+(** val hd : 'a1 -> 'a1 list -> 'a1 **)
+
+let hd default = function
+| [] -> default
+| x :: _ -> x
+
 (** val tl : 'a1 list -> 'a1 list **)
 
 let tl = function
@@ -181,6 +187,12 @@ let rec removelast = function
 let rec rev = function
 | [] -> []
 | x :: l' -> app (rev l') (x :: [])
+
+(** val concat : 'a1 list list -> 'a1 list **)
+
+let rec concat = function
+| [] -> []
+| x :: l0 -> app x (concat l0)
 
 (** val map : ('a1 -> 'a2) -> 'a1 list -> 'a2 list **)
 
@@ -5994,6 +6006,125 @@ let check_stdin_mode legacy_decode format cfg input =
   match decode_file legacy_decode cfg input with
   | Some p -> let (_, t) = p in negb (bytes_eqb t (format t))
   | None -> true
+
+type kev =
+| KT
+| KS
+| KL
+| KC
+| Kc
+| KR
+| Kr
+
+type kstate = { k_lines : nat list list; k_cur : nat list; k_pi : nat;
+                k_last : nat }
+
+(** val k_init : kstate **)
+
+let k_init =
+  { k_lines = ([] :: []); k_cur = (O :: []); k_pi = O; k_last = O }
+
+(** val upd_nth : nat -> ('a1 -> 'a1) -> 'a1 list -> 'a1 list **)
+
+let rec upd_nth i f = function
+| [] -> []
+| a :: t -> (match i with
+             | O -> (f a) :: t
+             | S j -> a :: (upd_nth j f t))
+
+(** val k_top : kstate -> nat **)
+
+let k_top s =
+  hd O s.k_cur
+
+(** val pop_keep : nat list -> nat list **)
+
+let pop_keep l = match l with
+| [] -> l
+| _ :: l0 -> (match l0 with
+              | [] -> l
+              | b :: t -> b :: t)
+
+(** val k_step : nat list -> kstate -> kev -> kstate **)
+
+let k_step pass s = function
+| KT ->
+  (match nth_error pass s.k_pi with
+   | Some t ->
+     { k_lines = (upd_nth (k_top s) (fun l -> app l (t :: [])) s.k_lines);
+       k_cur = s.k_cur; k_pi = (S s.k_pi); k_last = s.k_last }
+   | None ->
+     { k_lines = s.k_lines; k_cur = s.k_cur; k_pi = (S s.k_pi); k_last =
+       s.k_last })
+| KS ->
+  { k_lines = s.k_lines; k_cur = s.k_cur; k_pi = (S s.k_pi); k_last =
+    s.k_last }
+| KL ->
+  let n0 = length s.k_lines in
+  { k_lines = (app s.k_lines ([] :: [])); k_cur =
+  (match s.k_cur with
+   | [] -> n0 :: []
+   | _ :: r -> n0 :: r); k_pi = s.k_pi; k_last = (k_top s) }
+| KC ->
+  let n0 = length s.k_lines in
+  { k_lines = (app s.k_lines ([] :: [])); k_cur = (n0 :: s.k_cur); k_pi =
+  s.k_pi; k_last = n0 }
+| KR ->
+  { k_lines = s.k_lines; k_cur = (s.k_last :: s.k_cur); k_pi = s.k_pi;
+    k_last = s.k_last }
+| _ ->
+  { k_lines = s.k_lines; k_cur = (pop_keep s.k_cur); k_pi = s.k_pi; k_last =
+    s.k_last }
+
+(** val k_run : nat list -> kev list -> kstate **)
+
+let k_run pass evs =
+  fold_left (k_step pass) evs k_init
+
+(** val k_skips : kev list -> nat -> nat list **)
+
+let rec k_skips evs pi =
+  match evs with
+  | [] -> []
+  | k :: r ->
+    (match k with
+     | KT -> k_skips r (S pi)
+     | KS -> pi :: (k_skips r (S pi))
+     | _ -> k_skips r pi)
+
+(** val nat_list_eqb : nat list -> nat list -> bool **)
+
+let rec nat_list_eqb a b =
+  match a with
+  | [] -> (match b with
+           | [] -> true
+           | _ :: _ -> false)
+  | x :: a' ->
+    (match b with
+     | [] -> false
+     | y :: b' -> (&&) (Nat.eqb x y) (nat_list_eqb a' b'))
+
+(** val consolidate_pass : nat list list -> nat list list -> nat list list **)
+
+let consolidate_pass acc pass_lines =
+  fold_left (fun acc0 l ->
+    match l with
+    | [] -> acc0
+    | _ :: _ ->
+      if existsb (nat_list_eqb l) acc0 then acc0 else app acc0 (l :: []))
+    pass_lines acc
+
+(** val parse_file_lines :
+    (nat -> bool) -> nat -> nat list list list -> nat list list **)
+
+let parse_file_lines is_directive ntok pass_results =
+  let merged = fold_left consolidate_pass pass_results [] in
+  let pushed = concat merged in
+  let dirs =
+    filter (fun i ->
+      (&&) (is_directive i) (negb (existsb (Nat.eqb i) pushed))) (seq O ntok)
+  in
+  consolidate_pass merged (map (fun i -> i :: []) dirs)
 
 module MLStringJoin =
  struct
